@@ -495,7 +495,9 @@ func (s *Sched) LiveGoroutines(proc int, includeDaemons bool) int {
 // the caller is parked and not enabled (timers are not considered).
 func (s *Sched) Quiescent(proc int) bool {
 	for _, g := range s.gs {
-		if g.done || g == s.cur || g.Proc != proc {
+		// (the predicate is evaluated by whichever goroutine is yielding, so
+		// the caller cannot be identified by s.cur: callers are the root)
+		if g.done || g == s.root || g.Proc != proc {
 			continue
 		}
 		if g.ready == nil || g.ready() {
